@@ -43,6 +43,26 @@
         } \
     } while(0)
 
+/* A list allocation that fails must stop the parse: the element loops index it */
+#define VALIDATE_ALLOC(ptr, count, dec) \
+    do { \
+        if ((ptr) == NULL && (count) > 0) { \
+            (dec)->status = CARQUET_ERROR_OUT_OF_MEMORY; \
+            snprintf((dec)->error_message, sizeof((dec)->error_message), \
+                "Out of memory for %d list elements", (int)(count)); \
+            return; \
+        } \
+    } while(0)
+
+#define VALIDATE_ALLOC_STATUS(ptr, count, error) \
+    do { \
+        if ((ptr) == NULL && (count) > 0) { \
+            CARQUET_SET_ERROR(error, CARQUET_ERROR_OUT_OF_MEMORY, \
+                "Out of memory for %d list elements", (int)(count)); \
+            return CARQUET_ERROR_OUT_OF_MEMORY; \
+        } \
+    } while(0)
+
 /* ============================================================================
  * Internal Helpers
  * ============================================================================
@@ -332,6 +352,7 @@ static void parse_column_metadata(thrift_decoder_t* dec, carquet_arena_t* arena,
                 VALIDATE_COUNT(count, CARQUET_MAX_ENCODINGS, dec);
                 meta->num_encodings = count;
                 meta->encodings = carquet_arena_calloc(arena, count, sizeof(carquet_encoding_t));
+                VALIDATE_ALLOC(meta->encodings, count, dec);
                 for (int32_t i = 0; i < count; i++) {
                     meta->encodings[i] = (carquet_encoding_t)thrift_read_i32(dec);
                 }
@@ -344,6 +365,7 @@ static void parse_column_metadata(thrift_decoder_t* dec, carquet_arena_t* arena,
                 VALIDATE_COUNT(count, CARQUET_MAX_PATH_ELEMENTS, dec);
                 meta->path_len = count;
                 meta->path_in_schema = carquet_arena_calloc(arena, count, sizeof(char*));
+                VALIDATE_ALLOC(meta->path_in_schema, count, dec);
                 for (int32_t i = 0; i < count; i++) {
                     meta->path_in_schema[i] = arena_strdup_thrift(arena, dec);
                 }
@@ -369,6 +391,7 @@ static void parse_column_metadata(thrift_decoder_t* dec, carquet_arena_t* arena,
                 meta->num_key_value = count;
                 meta->key_value_metadata = carquet_arena_calloc(arena, count,
                     sizeof(parquet_key_value_t));
+                VALIDATE_ALLOC(meta->key_value_metadata, count, dec);
                 for (int32_t i = 0; i < count; i++) {
                     thrift_read_struct_begin(dec);
                     thrift_type_t ft;
@@ -405,6 +428,7 @@ static void parse_column_metadata(thrift_decoder_t* dec, carquet_arena_t* arena,
                 meta->num_encoding_stats = count;
                 meta->encoding_stats = carquet_arena_calloc(arena, count,
                     sizeof(parquet_page_encoding_stats_t));
+                VALIDATE_ALLOC(meta->encoding_stats, count, dec);
                 for (int32_t i = 0; i < count; i++) {
                     thrift_read_struct_begin(dec);
                     thrift_type_t ft;
@@ -511,6 +535,7 @@ static void parse_row_group(thrift_decoder_t* dec, carquet_arena_t* arena,
                 rg->num_columns = count;
                 rg->columns = carquet_arena_calloc(arena, count,
                     sizeof(parquet_column_chunk_t));
+                VALIDATE_ALLOC(rg->columns, count, dec);
                 for (int32_t i = 0; i < count; i++) {
                     parse_column_chunk(dec, arena, &rg->columns[i]);
                 }
@@ -591,6 +616,7 @@ carquet_status_t parquet_parse_file_metadata(
                 metadata->num_schema_elements = count;
                 metadata->schema = carquet_arena_calloc(arena, count,
                     sizeof(parquet_schema_element_t));
+                VALIDATE_ALLOC_STATUS(metadata->schema, count, error);
                 for (int32_t i = 0; i < count; i++) {
                     parse_schema_element(&dec, arena, &metadata->schema[i]);
                 }
@@ -607,6 +633,7 @@ carquet_status_t parquet_parse_file_metadata(
                 metadata->num_row_groups = count;
                 metadata->row_groups = carquet_arena_calloc(arena, count,
                     sizeof(parquet_row_group_t));
+                VALIDATE_ALLOC_STATUS(metadata->row_groups, count, error);
                 for (int32_t i = 0; i < count; i++) {
                     parse_row_group(&dec, arena, &metadata->row_groups[i]);
                 }
@@ -620,6 +647,7 @@ carquet_status_t parquet_parse_file_metadata(
                 metadata->num_key_value = count;
                 metadata->key_value_metadata = carquet_arena_calloc(arena, count,
                     sizeof(parquet_key_value_t));
+                VALIDATE_ALLOC_STATUS(metadata->key_value_metadata, count, error);
                 for (int32_t i = 0; i < count; i++) {
                     thrift_read_struct_begin(&dec);
                     thrift_type_t ft;
